@@ -310,7 +310,11 @@ class KeyqueueTrie:
                 raise MoreInputRequired()
             return None
 
-        (b, x, y) = (int(val) for val in value[:-1].split(";"))
+        try:
+            (b, x, y) = (int(val) for val in value[:-1].split(";"))
+        except ValueError:
+            # not a well-formed report: the bytes are passed through as ordinary input
+            return None
         action = value[-1]
         # Double and triple clicks are not supported.
         # They can be implemented by using a timer.
